@@ -284,6 +284,9 @@ fn install_panic_hook() {
                 .location()
                 .map(|l| format!("{}:{}", l.file(), l.line()))
                 .unwrap_or_else(|| "<unknown>".into());
+            if std::env::var_os("VERIF_BACKTRACE").is_some() {
+                eprintln!("panic: {} at {}\n{}", msg, loc, std::backtrace::Backtrace::force_capture());
+            }
             LAST_PANIC.with(|p| *p.borrow_mut() = Some(format!("{} at {}", msg, loc)));
         } else {
             default(info);
